@@ -3,6 +3,7 @@ package sched
 import (
 	"fmt"
 	"math/rand"
+	"sync/atomic"
 	"time"
 
 	"verif/harness/internal/core"
@@ -92,17 +93,18 @@ func Lockstep(b Beh, rng *rand.Rand, pause time.Duration) ([]Mismatch, error) {
 		return nil, err
 	}
 	defer r.close()
+	r.holdTransient = true
 	released := map[int]bool{}
 	r.start()
 	abort := func(ms []Mismatch) ([]Mismatch, error) {
 		r.freeRun()
 		select {
 		case <-r.done:
-		case <-time.After(stepDeadline):
+		case <-time.After(2 * time.Second):
 			r.sched.Cancel()
 			select {
 			case <-r.done:
-			case <-time.After(stepDeadline):
+			case <-time.After(2 * time.Second):
 			}
 		}
 		return ms, nil
@@ -160,6 +162,11 @@ func Lockstep(b Beh, rng *rand.Rand, pause time.Duration) ([]Mismatch, error) {
 	return ms, nil
 }
 
+// stuck counts executions in which the real scheduler hung; it is shared by every driver of
+// the engine so that a scheduler that never returns is reported after a handful of cases
+// instead of being waited for thousands of times.
+var stuck int32
+
 // ReplayAll replays behaviours in parallel and reports mismatches.
 func ReplayAll(behs []Beh, env *core.Env, rep *core.Report, pause time.Duration, workers int, label string, samples *core.Samples, distinct *core.Distinct) (int, int) {
 	done := 0
@@ -171,8 +178,15 @@ func ReplayAll(behs []Beh, env *core.Env, rep *core.Report, pause time.Duration,
 	}
 	results := make([]res, len(behs))
 	core.Parallel(len(behs), workers, func(i int) {
+		if atomic.LoadInt32(&stuck) >= 6 {
+			results[i] = res{nil, nil, -2} // circuit breaker: the scheduler keeps hanging; enough evidence
+			return
+		}
 		rng := rand.New(rand.NewSource(env.Seed*1000003 + int64(i)))
 		ms, err := Lockstep(behs[i], rng, pause)
+		if containsProp(ms, "C03") {
+			atomic.AddInt32(&stuck, 1)
+		}
 		if len(ms) > 0 && containsProp(ms, "C03", "C04") {
 			// deadline-derived verdicts are re-tried once, alone
 			results[i] = res{nil, nil, -1}
@@ -180,8 +194,10 @@ func ReplayAll(behs []Beh, env *core.Env, rep *core.Report, pause time.Duration,
 		}
 		results[i] = res{ms, err, i}
 	})
+	retried := 0
 	for i := range results {
-		if results[i].i == -1 {
+		if results[i].i == -1 && retried < 6 {
+			retried++
 			rng := rand.New(rand.NewSource(env.Seed*1000003 + int64(i)))
 			ms, err := Lockstep(behs[i], rng, pause)
 			results[i] = res{ms, err, i}
@@ -189,6 +205,9 @@ func ReplayAll(behs []Beh, env *core.Env, rep *core.Report, pause time.Duration,
 	}
 	for i, r := range results {
 		b := behs[i]
+		if r.i < 0 {
+			continue
+		}
 		if r.err != nil {
 			rep.Add(core.Finding{Prop: "C05", Key: "C05:graph-build-failed-in-scheduler-driver", What: r.err.Error(), Detail: b.Config})
 			continue
